@@ -8,8 +8,6 @@ import vf
 
 POLLIN, POLLPRI, POLLOUT, POLLERR, POLLHUP, POLLNVAL, POLLRDHUP = 1, 2, 4, 8, 16, 32, 0x2000
 UV_EBADF = -9
-K_SHARED = "poll_stop_or_close_of_idle_handle_unregisters_other_handle_on_same_descriptor"
-K_EBADF = "ebadf_autostop_keeps_kernel_registration"
 
 
 def uv2poll(m):
@@ -102,29 +100,23 @@ def gen_case(rng, ring, strict):
     return "%d %d ; %s ; %s" % (ring, strict, " ".join(ops), " | ".join(behs))
 
 
-# fixed scenarios: (case, which known finding it reproduces or None)
+# fixed scenarios (the regression cases of the two repaired defects are in corpus/C14/cases.txt)
 FIXED = [
     # restart with another mask / stop / close from the callback of another handle of the batch
-    ("1 1 ; O0,s O1,s O2,s I0 I1 I2 S0,1 S1,1 S2,3 K0 K1 K2 R R R ; S1,2 T2,0 | C0 | S2,1", None),
-    ("0 1 ; O0,s O1,s O2,s I0 I1 I2 S0,1 S1,1 S2,3 K0 K1 K2 R R R ; S1,2 T2,0 | C0 | S2,1", None),
+    ("1 1 ; O0,s O1,s O2,s I0 I1 I2 S0,1 S1,1 S2,3 K0 K1 K2 R R R ; S1,2 T2,0 | C0 | S2,1"),
+    ("0 1 ; O0,s O1,s O2,s I0 I1 I2 S0,1 S1,1 S2,3 K0 K1 K2 R R R ; S1,2 T2,0 | C0 | S2,1"),
     # close + reopen with the same number inside a callback, new handle started in the batch
-    ("1 1 ; O0,s O1,s I0 I1 S0,1 S1,1 K0 K1 R R R ; C1 X1 O1,s K1 I1 S2,1 | C0 X0 O0,s K0 I0 S3,3", None),
-    ("0 1 ; O0,s O1,s I0 I1 S0,1 S1,1 K0 K1 R R R ; C1 X1 O1,s K1 I1 S2,1 | C0 X0 O0,s K0 I0 S3,3", None),
+    ("1 1 ; O0,s O1,s I0 I1 S0,1 S1,1 K0 K1 R R R ; C1 X1 O1,s K1 I1 S2,1 | C0 X0 O0,s K0 I0 S3,3"),
+    ("0 1 ; O0,s O1,s I0 I1 S0,1 S1,1 K0 K1 R R R ; C1 X1 O1,s K1 I1 S2,1 | C0 X0 O0,s K0 I0 S3,3"),
     # dup kept open elsewhere, handle closed, descriptor closed: nothing may stay in the kernel
-    ("1 1 ; O0,s I0 S0,3 K0 U0,1 R C0 X0 R R O0,p I0 S1,1 R ; ", None),
-    ("0 1 ; O0,s I0 S0,3 K0 U0,1 R C0 X0 R R O0,p I0 S1,1 R ; ", None),
+    ("1 1 ; O0,s I0 S0,3 K0 U0,1 R C0 X0 R R O0,p I0 S1,1 R ; "),
+    ("0 1 ; O0,s I0 S0,3 K0 U0,1 R C0 X0 R R O0,p I0 S1,1 R ; "),
     # hang-up / error translation, UV_EBADF stop on a pipe whose reader went away
-    ("1 1 ; O0,q I0 S0,2 R H0 R R C0 R ; ", None),
-    ("1 1 ; O0,s I0 S0,5 K0 R H0 R D0 R S0,2 R ; ", None),
+    ("1 1 ; O0,q I0 S0,2 R H0 R R C0 R ; "),
+    ("1 1 ; O0,s I0 S0,5 K0 R H0 R D0 R S0,2 R ; "),
     # bare watchers: partial stop -> MOD, stop to zero + start -> ADD/EEXIST/MOD, feed, close
-    ("1 1 ; O0,s J0 S0,3 K0 R T0,2 R T0,1 R S0,1 R F0 R C0 R ; F0 | | T0,1", None),
-    ("0 1 ; O0,s J0 S0,3 K0 R T0,2 R T0,1 R S0,1 R F0 R C0 R ; F0 | | T0,1", None),
-    # known finding: two handles on one descriptor, closing the idle one unregisters the other
-    ("1 0 ; O0,s I0 I0 S1,1 K0 R C0 R R ; ", K_SHARED),
-    ("0 0 ; O0,s I0 I0 S1,1 K0 R T0,0 R R ; ", K_SHARED),
-    # known finding: UV_EBADF auto-stop leaves the registration; dup + close + uv_close in the callback
-    ("1 0 ; O0,q I0 S0,2 H0 R R O2,s I2 S1,1 R R R ; U0,1 X0 C0", K_EBADF),
-    ("0 0 ; O0,q I0 S0,2 H0 R R O2,s I2 S1,1 R R R ; U0,1 X0 C0", K_EBADF),
+    ("1 1 ; O0,s J0 S0,3 K0 R T0,2 R T0,1 R S0,1 R F0 R C0 R ; F0 | | T0,1"),
+    ("0 1 ; O0,s J0 S0,3 K0 R T0,2 R T0,1 R S0,1 R F0 R C0 R ; F0 | | T0,1"),
 ]
 
 
@@ -164,25 +156,16 @@ def parse_list(s, n):
 
 def monitor_tokens(toks):
     """Decide from the implementation's own trace whether the property is violated.
-    Returns None or a reason ('KNOWN:<key>' for the two listed defects)."""
+    Returns None or a reason."""
     H = {}              # h -> dict(fd, kind, closed, live(mask or None), epoch, pev (raw))
     npw = 0
     batch = {}          # fd -> events of the batch being dispatched
     expect = {}         # h -> fd : callbacks owed by the current batch
-    ebadf_fds = set()   # numbers on which an UV_EBADF auto-stop happened
     complaints = []
     env_dirty = False   # a peer action since the batch was fetched: readiness may have changed
 
-    def others_on(fd, h):
-        return [j for j, x in H.items() if j != h and x["fd"] == fd]
-
     def complain(kind, fd, h, text):
-        if kind in ("lack", "nofire") and h is not None and others_on(fd, h):
-            complaints.append("KNOWN:" + K_SHARED)
-        elif kind in ("stale", "unreal", "dupent") and fd in ebadf_fds:
-            complaints.append("KNOWN:" + K_EBADF)
-        else:
-            complaints.append(text)
+        complaints.append(text)
 
     def flush_expect():
         for h, fd in expect.items():
@@ -265,7 +248,6 @@ def monitor_tokens(toks):
                     complain("unreal", x["fd"], h, "UV_EBADF callback for handle %d but poll(2) on its descriptor "
                              "says %d: no error condition" % (h, rev))
                 x["live"] = None
-                ebadf_fds.add(x["fd"])
             else:
                 return "poll callback with status %d" % st
         elif c == "w":
@@ -340,8 +322,7 @@ def monitor_tokens(toks):
     flush_expect()
     if not complaints:
         return None
-    plain = [c for c in complaints if not c.startswith("KNOWN:")]
-    return plain[0] if plain else complaints[0]
+    return complaints[0]
 
 
 def run_harness(exe, cases, shards=8):
@@ -383,8 +364,8 @@ def main():
     cp = os.path.join(vf.VERIF, "corpus", "C14", "cases.txt")
     if os.path.exists(cp):
         corpus = [l.rstrip("\n") for l in open(cp) if l.strip() and not l.startswith("#")]
-    n = 30000 if thorough else 2400
-    cases = [c for c, _ in FIXED] + corpus
+    n = 120000 if thorough else 2400
+    cases = list(FIXED) + corpus
     for i in range(n):
         ring = i % 2
         strict = 1 if chk.rng.random() < 0.6 else 0
@@ -423,14 +404,6 @@ def main():
     vf.diff_cases(chk, "core.c/linux.c/poll.c io watchers = Model/IoWatch.v", cases, comp, mout,
                   lambda c, a: mon.get(c))
 
-    # the fixed scenarios must show what they are there for
-    for (c, key) in FIXED:
-        if c not in mon:
-            continue
-        r = mon[c]
-        if key is not None and r != "KNOWN:" + key:
-            chk.violation("scenario for the known finding %s no longer shows it (monitor: %s)" % (key, r),
-                          {"kind": "monitor", "case": c}, found_input=False)
     ncb = sum(1 for toks in tokl for t in toks if t[0] == "c")
     nbad = sum(1 for toks in tokl for t in toks if t.startswith("c") and ",-9," in t)
     chk.cov["poll_callbacks_observed"] = ncb
